@@ -368,6 +368,7 @@ def explore_cell(lemma, cell, interp, timeout_ms=10000, max_paths=4000, replay=T
         interp.steps = 0
         interp.stdout = []
         interp.fs_writes = []
+        interp.cwd = ""
         try:
             lemma.run(env, cell)
         except (PathAbort, StopPath):
@@ -422,8 +423,9 @@ def explore_cell(lemma, cell, interp, timeout_ms=10000, max_paths=4000, replay=T
                 res.failures.append(f)
     # bounded probes: when an obligation of this cell is undecided (or refuted without a native witness) look for a
     # concrete failing input natively among the lemma's probe inputs; a hit is a replayed violation
-    needs = bool(res.undecided) or any(f.get("native") in ("spurious", "no-native-counterpart") for f in res.failures)
-    if needs and replay and hasattr(lemma, "probes"):
+    # (the probes run for every cell that has them, not only when something is undecided: they are the bounded companion of the
+    # contract -- a change OUTSIDE the function under contract, e.g. in the order its caller applies it, shows only there)
+    if replay and hasattr(lemma, "probes"):
         seen_sigs = set()
         for holes in lemma.probes(cell):
             r = native_replay(lemma, cell, holes, None)
@@ -435,13 +437,18 @@ def explore_cell(lemma, cell, interp, timeout_ms=10000, max_paths=4000, replay=T
             def same_clause(f):
                 ct = f["clause"].split("::")[-1]
                 return str(r["signature"]).startswith(ct + ":") or str(r["signature"]) == ct
-            res.failures = [f for f in res.failures
-                            if not (f.get("native") in ("spurious", "no-native-counterpart") and same_clause(f))]
-            res.failures.append({"clause": (res.undecided[0]["clause"] if res.undecided else "probe"),
-                                 "props": sorted(set(p for c in res.clauses.values() for p in c["props"])),
-                                 "holes": holes, "native": "confirmed", "signature": "probe:%s" % r["signature"],
-                                 "info": r["info"]})
-            if len(seen_sigs) >= 4:
+            # a probe witness stands in for the witness-less refutations of the SAME clause; it is reported under the clause that
+            # failed natively, with the native signature (as if the cell had been refuted on this input)
+            explains = [f for f in res.failures if f.get("native") in ("spurious", "no-native-counterpart") and same_clause(f)]
+            res.failures = [f for f in res.failures if f not in explains]
+            for (cl, props_, detail) in r.get("failed", [])[:1]:
+                if any(f["clause"] == cl and f.get("signature") == detail for f in res.failures):
+                    continue
+                res.failures.append({"clause": cl, "props": props_, "holes": holes, "native": "confirmed", "signature": detail,
+                                     "info": r["info"], "probe": True})
+                c = res.clauses.setdefault(cl, {"status": "failed", "props": props_, "n": 0, "ms": 0.0})
+                c["status"] = "failed"
+            if len(seen_sigs) >= 12:
                 break
     res.wall_s = time.time() - t0
     return res
@@ -491,11 +498,13 @@ def native_replay(lemma, cell, holes, clause, timeout_s=5.0, props=None):
     if same:
         out["native"] = "confirmed"
         out["signature"] = same[0].detail
+        out["failed"] = [(o.clause, sorted(o.props), o.detail) for o in same]
     elif fails:
         # internal proof obligations (invariants, pre@call, decreases) have no native counterpart of their own:
         # the native run evaluates the property-level clauses of the cell, any of which failing confirms
         out["native"] = "confirmed"
         out["signature"] = "%s:%s" % (fails[0].clause.split("::")[-1], fails[0].detail)
+        out["failed"] = [(o.clause, sorted(o.props), o.detail) for o in fails]
     else:
         out["native"] = "spurious"
     return out
